@@ -49,6 +49,9 @@ impl Timer {
                 if c2.load(Ordering::SeqCst) {
                     break;
                 }
+                if let Some(n) = node {
+                    with(|k| *k.ext.entry(format!("timer_started_{}", n)).or_insert(0) += 1);
+                }
                 cb();
                 if let Some(n) = node {
                     with(|k| *k.ext.entry(format!("timer_fired_{}", n)).or_insert(0) += 1);
